@@ -110,8 +110,9 @@ def agree(ctx, *args):
                 pass
             else:
                 return False
-    # CONFIGS_LIST names exactly the variables set, in order
-    if sorted(lst) != sorted("CONFIG_" + n for n in cm):
+    # CONFIGS_LIST names exactly the variables set (an option defined in several places is written once per
+    # definition, with the same value: a repeated name is not a disagreement)
+    if set(lst) != set("CONFIG_" + n for n in cm):
         return False
     return True
 
